@@ -36,6 +36,7 @@ C01EvalFails(c) ==
        <<"evaluate_full_circuit", C01TableExact(o.full, tt, labels)>>,
        <<"get_gates_truth_table", C01TableExact(o.gtt, tt, labels)>>,
        <<"evaluate_circuit", C01TablePartial(o.circ, tt, labels, Reach(ck, SeqSet(ck.o)))>>,
+       <<"bench-conversion-denotes-the-same-function", ~Has(o, "bench") \/ RowSets(o.bench) = outTT>>,
        <<"evaluate_circuit_outputs(reused-dict)", ~Has(o, "outs_r") \/ C01TableExact(o.outs_r, tt, SeqSet(ck.o))>>,
        <<"evaluate_full_circuit(reused-dict)", ~Has(o, "full_r") \/ C01TableExact(o.full_r, tt, labels)>>,
        <<"evaluate_circuit(reused-dict)", ~Has(o, "circ_r") \/
